@@ -19,8 +19,8 @@ MODEL_MODULES = ["Ebv.Model.GenCond", "Ebv.Model.CondClass"]
 DRIVER = "Drivers/C03.lean"
 M64 = dsl.M64
 # classes of the unchanged tree, in order of precedence (shape predicates shared with Ebv.Gen.CondClass)
-CLASSES = ["unary-in-place", "unary-32-in-64", "widen-in-place", "narrow-reg-in-64", "abs-32",
-           "const-left-32", "u64-vs-negative-short"]
+CLASSES = ["widen-in-place", "narrow-reg-in-64",
+           "const-left-32"]
 
 
 # ----------------------------------------------------------------------------- per-atom precondition and class refinement
@@ -65,14 +65,12 @@ def atom_status(E, at, regs, varat):
     else:
         inside = all(0 <= v < (1 << W) for v in (a, b))
     shape = dc.atom_classes(E, l, r)
-    fired = set(shape) - {"u64-vs-negative-short", "narrow-reg-in-64", "widen-in-place", "const-left-32"}
+    fired = set(shape) - {"narrow-reg-in-64", "widen-in-place", "const-left-32"}
     if "const-left-32" in shape:
         in32 = (lambda v: -(1 << 31) <= v < (1 << 31)) if info["sg"] else (lambda v: 0 <= v < (1 << 32))
         # the operand is computed in 32 bits and makes the whole comparison a 32-bit one: either value may be cut
         if not (in32(a) and in32(b)):
             fired.add("const-left-32")
-    if "u64-vs-negative-short" in shape and b < 0:
-        fired.add("u64-vs-negative-short")
     if "widen-in-place" in shape:
         x = l
         while isinstance(x, E.Unary):
@@ -260,6 +258,8 @@ def gen_programs(ctx):
         out.append(("deep-cond", dc.gen_random(rng, nest=1, cdepth=3, compound=0.05)))
     for _ in range(ctx.n(150, 3000)):
         out.append(("owners", dc.gen_owners(rng)))
+    for _ in range(ctx.n(200, 4000)):
+        out.append(("unary-operand", dc.gen_unary(rng)))
     return out
 
 
@@ -356,10 +356,10 @@ THEOREMS = [
     "Ebv.Gen.JumpRun.over", "Ebv.Gen.calc_none", "Ebv.Gen.cmpCore_correct", "Ebv.Gen.target_ok", "Ebv.Gen.cond_correct",
     "Ebv.Gen.splice_shape", "Ebv.Gen.withThen_correct", "Ebv.Gen.withElse_correct", "Ebv.Gen.withElse_bits_correct",
     "Ebv.Gen.with_correct", "Ebv.Gen.mtruth_eq_truth", "Ebv.Gen.sem_semZ", "Ebv.Gen.emitS_compile", "Ebv.Gen.elabC_truth",
-    "Ebv.C03.C03_surface_truth",
+    "Ebv.C03.C03_surface_truth", "Ebv.Gen.abs_segment", "Ebv.Gen.abs_top_correct",
     "Ebv.C03.C03_core", "Ebv.C03.C03_partial", "Ebv.C03.C03_full_refuted",
-    "Ebv.C03.u64_vs_negative_short_refuted", "Ebv.C03.narrow_reg_in_64_refuted", "Ebv.C03.widen_in_place_refuted",
-    "Ebv.C03.unary_in_place_refuted", "Ebv.C03.unary_32_in_64_refuted", "Ebv.C03.const_left_32_refuted",
+    "Ebv.C03.before_fix_u64_vs_negative_short", "Ebv.C03.narrow_reg_in_64_refuted", "Ebv.C03.widen_in_place_refuted",
+    "Ebv.C03.before_fix_unary_in_place", "Ebv.C03.before_fix_unary_32_in_64", "Ebv.C03.const_left_32_refuted",
 ]
 TRUSTED = ["hand-written model Ebv.Gen + Ebv.Model.GenCond of the comparison / with-block code generator (ebpfcat/ebpf.py: comparison, "
            "SimpleComparison, AndComparison, AndOrComparison, InvertComparison, Comparison.__enter__/__exit__/Else, Elser, jumpIf), tied "
@@ -377,7 +377,8 @@ ASSUMPTIONS = ["registers in `owned` are declared by assigning EBPF.owners befor
 RULE = ("statement programs = JSON (dsl_cond.py): the atom family (6 comparison operators x 13 leaf kinds x 13 leaf kinds, bit tests x "
         "14 masks x 3 spellings, expressions as conditions; each x {with, with/Else, jumpIf, jumpIf/Else}), sampled (quick) or "
         "enumerated (thorough); random trees: nesting <= 3, and/or/not depth <= 3, compound operands (+ - * | ^ & neg abs, int on "
-        "either side, Sum - expression, Sum +- int, one Sum object used twice with different added constants), ownership at joins; inputs = boundary values around every constant in the program (c-1, c, c+1, -c), "
+        "either side, Sum - expression, Sum +- int, one Sum object used twice with different added constants), ownership at joins, "
+        "the unary-operand family (abs / unary minus of every leaf kind against a constant or a leaf); inputs = boundary values around every constant in the program (c-1, c, c+1, -c), "
         "sign bits and width edges, small values, all-equal vectors; non-trivial = accepted with at least one condition")
 LEVEL_TEXT = ("Lean 4 proof by structural induction of a hand-written model of the comparison / with-block generator: closed-segment "
               "lemmas for code with forward jumps; cond_correct (induction on the condition tree: the code of `compare negative`, "
@@ -392,8 +393,14 @@ LEVEL_NOTE = ("trusted: Lean kernel + propext/Classical.choice/Quot.sound; model
               "nesting, sequencing, owners intersection (conservatively). Corresponded + oracle only (NOT proved): jumpIf/target/Else "
               "used directly (off+1 branch), operands outside C01's fragment or compound 32-bit operands in unsigned 64-bit "
               "comparisons, reads of registers assigned in both branches, bit fields and "
-              "fixed point (not modelled). Known defect classes of the unchanged tree (each refuted in Lean): u64-vs-negative-short, "
-              "narrow-reg-in-64, widen-in-place, const-left-32, and C01's unary-in-place, unary-32-in-64, abs-32. Sum - expression operands "
-              "(was class sum-minus) are inside elabC_truth / C03_partial since Sum.__sub__ was repaired.")
+              "fixed point (not modelled). Known defect classes of the unchanged tree (each refuted in Lean): "
+              "narrow-reg-in-64, widen-in-place, const-left-32 (C01's unary classes are repaired). A signed right operand of a 64-bit "
+              "unsigned left operand is computed in 64 bits (was class u64-vs-negative-short; regression witness "
+              "before_fix_u64_vs_negative_short). Unary operators on a register operand work on a "
+              "copy (was class unary-in-place) and are executed in 64 bits inside a 64-bit comparison (was class unary-32-in-64); "
+              "cond_correct / C03_partial hold without these exclusions. Sum - expression operands "
+              "(was class sum-minus) are inside elabC_truth / C03_partial since Sum.__sub__ was repaired; abs operands of 32-bit "
+              "comparisons (was class abs-32) are judged by the oracle without excuse since Absolute was repaired; abs_segment / "
+              "abs_top_correct prove the abs code at both widths (abs inside cond_correct's operands stays outside Expr.frag).")
 TECHNIQUE = "Lean 4 structural induction over condition trees and statements (compiler correctness) + exact opcode-list correspondence"
 DESIGN_REF = "§4 C03"
